@@ -38,7 +38,7 @@ LEVEL_NOTE = ("Trusted: the reference model in this file; resumption is read "
               "ServerHello), not from connection.resumed.  Stateless tickets "
               "cannot be invalidated server-side by design; the model only "
               "demands refusal where the library has the information.")
-BUDGET = {"quick": 60, "thorough": 1200}
+BUDGET = {"quick": 300, "thorough": 1200}
 CHUNK = 4
 PROBES = ["resumed_id", "resumed_ticket10", "resumed_ticket13",
           "fallback_full", "expired_by_server_clock", "clock_skew",
